@@ -56,7 +56,7 @@ def run(c):
          name="as read: GSS branches hard-wire AUTH_SUCCESSFUL", workers=1, env=A.JVM)
     if not c.quick:
         for sw in ({"BlobOmits": "sid"}, {"BlobOmits": "user"}, {"BlobOmits": "service"}, {"BlobOmits": "alg"},
-                   {"BlobOmits": "key"}, {"KeepsResultAfterBadSig": True}, {"KeepsResultOnForeignLabel": True}, {"PkOkCachesApproval": True},
+                   {"BlobOmits": "key"}, {"KeepsResultAfterBadSig": True}, {"KeepsResultOnForeignLabel": True}, {"PkOkCachesApproval": True}, {"EmptyListPromotesPartial": True},
                    {"ProbeAuthenticates": True}):
             c.mc("ServerAuth", A.mc_cfg(A.consts(MaxDepth=4, ConfigSel={"plain"}, **sw)), expect="GrantNeedsApproval",
                  name="sensitivity: %s" % sw, workers=1, env=A.JVM)
@@ -90,6 +90,26 @@ def run(c):
                                          "cb": cb, "sig": sg, "pk": v}
                     jobs.append({"bursts": [[rq(cb1, "absent")], [rq(cb2, sig)]], "opts": {}, "names": A.DEFAULT_NAMES,
                                  "key": "probe-sign|%s|%s|%s|%s" % (v, cb1, cb2, sig), "sample": cb1 == "partial" and cb2 == "ok" and n < 40})
+    # a partial success is a partial success whatever list of further methods the application offers with it (empty, or
+    # one without the method just used): every way of obtaining "partial", fixed stratum
+    R = lambda **kw: dict({"k": "request", "user": "alice", "service": "ssh-connection"}, **kw)
+    partial_ways = [
+        ("none", {}, [R(method="none", cb="partial")]),
+        ("password", {}, [R(method="password", cb="partial")]),
+        ("publickey", {}, [R(method="publickey", cb="partial", sig="good")]),
+        ("probe+publickey", {}, [R(method="publickey", cb="partial", sig="absent"), R(method="publickey", cb="partial", sig="good")]),
+        ("keyboard-interactive", {}, [R(method="keyboard-interactive", cb="partial")]),
+        ("info_response", {}, [R(method="keyboard-interactive", cb="query"), {"k": "info_response", "cb": "partial"}]),
+        ("unknown-method", {}, [R(method="bogus", cb="partial")]),
+        ("gssapi-keyex", {"gss": True, "ctx": True}, [R(method="gssapi-keyex", cb="partial")]),
+        ("gssapi-with-mic", {"gss": True, "bound": True},
+         [R(method="gssapi-with-mic"), {"k": "gss_token", "tok": "done"}, {"k": "gss_mic", "cb": "partial"}]),
+    ]
+    for name, o, seq in partial_ways:
+        for al in ("empty", "without"):
+            sq = [dict(q, allowed=al) for q in seq] + [R(method="none", cb="fail", allowed=al)]
+            jobs.append({"bursts": A.single(sq), "opts": o, "names": A.DEFAULT_NAMES, "key": "list|%s|%s" % (name, al),
+                         "sample": name == "password" and al == "empty"})
     traces = A.execute(c, jobs, other_sid, "TLC-generated")
     ph["replay"] = round(time.time() - t0, 1)
     # ---- TV: code -> spec
